@@ -361,11 +361,18 @@ def run(ctx: Context) -> None:
         tw = ctx.func(f"{TOPO}.two_dimension")
         mt = Matcher(ctx, tw)
         std = mt.stmt("if $two in self.dataset.sizes and self.dataset.sizes[$two] == 2:\n    return $two")
-        scan = [n for n in walk_no_nested(tw.node) if isinstance(n, ast.For) and 'sizes.items()' in norm_text(n.iter)]
+        # "the first dimension of size 2, else `two`": a first-match loop reads as next((name for name, size in sizes.items() if size == 2), two)
+        scan = []
+        for r in tw.returns():
+            v = r.value
+            if isinstance(v, ast.Call) and dotted(v.func) == 'next' and len(v.args) == 2 and isinstance(v.args[0], ast.GeneratorExp) and len(v.args[0].generators) == 1:
+                g_ = v.args[0].generators[0]
+                if norm_text(g_.iter) == 'self.dataset.sizes.items()' and isinstance(g_.target, ast.Tuple) and len(g_.target.elts) == 2 \
+                        and norm_text(v.args[0].elt) == norm_text(g_.target.elts[0]) and [norm_text(t) for t in g_.ifs] == [f"{norm_text(g_.target.elts[1])} == 2"]:
+                    scan.append(r)
         two_def = [n for n in walk_no_nested(tw.node) if isinstance(n, ast.Assign) and const_value(n.value, None) == 'Two']
         ok = std is not None and len(scan) == 1 and std.lineno < scan[0].lineno and len(two_def) == 1 and mt.name('two') == norm_text(two_def[0].targets[0]) \
-            and any(isinstance(s, ast.If) and norm_text(s.test).endswith('== 2') and any(isinstance(x, ast.Return) for x in s.body) for s in scan[0].body) \
-            and norm_text(tw.returns()[-1].value) == mt.name('two')
+            and scan[0] is tw.returns()[-1] and norm_text(scan[0].value.args[1]) == mt.name('two')
         ctx.check('R10.5', ok, "without an edge table to say, the size-2 dimension is the one named 'Two' when it exists with size 2, else the first dimension of size 2, else a new 'Two'", tw, tw.node,
                   construct='two_dimension: standard name first, then any size-2 dimension, then the standard name')
         # an unrelated dimension of size two (exactly two time steps) must not be taken for the pair dimension
